@@ -213,7 +213,9 @@ def _sync_user(number_kind):
 
 
 send(CONTACTS + ":GetSyncIqProtocolEntity", [LIST(PHONE, 1, 4)],
-     {"mode": OPT(WORD("full", "delta")), "context": OPT(WORD("registration", "interactive"))},
+     {"mode": OPT(WORD("full", "delta")), "context": OPT(WORD("registration", "interactive")),
+      # a sync split into several requests: same session id, running index, only the final one marked last
+      "sid": OPT(MAP(TS, lambda t: t + "0000000", "SYNCSID")), "index": OPT(MAP(WORD("0", "1", "2", "7"), int, "SYNCINDEX")), "last": OPT(BOOL)},
      owner="contacts", route="app", notes="demos pass the number list only; mode/context limited to the class constants")
 recv(CONTACTS + ":ResultSyncIqProtocolEntity",
      N("iq", {"type": CONST("result"), "from": JID, "id": ID},
@@ -278,7 +280,8 @@ send(IQ + ":CryptoIqProtocolEntity", [], owner="iq", route="app", notes="cli dem
 recv(PRESENCE + ":PresenceProtocolEntity",
      N("presence", {"from": JID, "type": OPT(WORD("unavailable")), "last": OPT(ONEOF(WORD("deny"), TS))}),
      owner="presence", notes="the two incoming docstring forms: contact online (from only), offline (type=unavailable, last)")
-send(PRESENCE + ":PresenceProtocolEntity", [], {"name": TEXT}, owner="presence", route="app", name="PresenceProtocolEntity_send",
+send(PRESENCE + ":PresenceProtocolEntity", [], {"name": TEXT, "_type": OPT(WORD("available", "unavailable"))}, owner="presence", route="app",
+     name="PresenceProtocolEntity_send",
      notes="cli demo: PresenceProtocolEntity(name=pushname)")
 send(PRESENCE + ":AvailablePresenceProtocolEntity", [], owner="presence", route="app")
 send(PRESENCE + ":UnavailablePresenceProtocolEntity", [], owner="presence", route="app")
